@@ -172,6 +172,7 @@ func (h *histRun) buildNamed(name string, i int, op *opSpec, pc procCfg, hook fu
 	bo.GCAfter, bo.SecondPlain, bo.ViaREPL = op.GCAfter, op.SecondPlain, op.REPL
 	h.w.replEvents = nil
 	h.w.failLate = op.FailLate
+	h.w.netFailAt = op.NetFailAt
 	if op.Twice && op.Between != nil {
 		between := *op.Between
 		bo.Between = func() {
